@@ -438,8 +438,9 @@ func (s *Server) Reset(reason string, timeoutMs int64) (*statejson.ResetDescript
 		}
 	}()
 
+	// the worker has cleared the server (and with it the reservation) before reporting done;
+	// a Release() here could only give back the reservation of the next caller
 	done := <-s.ResetDoneChan
-	s.Release()
 
 	if done.ErrorType != "" {
 		return nil, errors.New(string(done.ErrorType))
